@@ -8,7 +8,7 @@ pool < 32768 entries (written `<h`, read `<H`), ints in int64, floats 8 bytes, a
 ndim < 256, payload = 8·∏dims bytes, years 1..9999 and valid dates, limit not NaN (NaN is the
 encoding of `None`), unique keys per dict, the constructor's date rules, cell values not str/date.
 -/
-import Bermuda.Lemmas.CodecSpec
+import Bermuda.Lemmas.CodecPy
 namespace Bermuda.Properties.C05
 open Bermuda Bermuda.Codec
 
@@ -82,6 +82,14 @@ entries, field names (in insertion order), values with their kind and bits, arra
 shape and bytes. Unconditional in the number of distinct keys (up to the pool limit). -/
 theorem decode_encode (t : RawTriangle) (h : WF t) : decode (encode t) = .ok t :=
   decode_encode_main t h
+
+/-- the same for the writer as it really decides (a metadata record when Python's `!=` says so):
+on coherent triangles — adjacent metadata are Python-equal exactly when they are identical — it
+writes the bytes of `encode`. (Outside: a run of `==`-equal metadata in different representations is
+one slice for the library and comes back in the representation of the run's first cell.) -/
+theorem decode_encodePy (t : RawTriangle) (h : WF t) (hc : coherent t = true) :
+    decode (encodePy t) = .ok t := by
+  rw [encodePy_eq_encode t hc]; exact decode_encode t h
 
 /-- a sufficient condition for `WF` that mentions no sorting: all cells fine and at most 16383
 key occurrences -/
